@@ -25,7 +25,7 @@ func H_rendererr(depth, L int, sameNS bool) {
 		ns = "a"
 	}
 	k := verifChoose(L)
-	src := "{namespace a}\n/** @param? x */\n{template .t}\n"
+	src := "{namespace a}\n/** @param? x \u3053\u3093\u306b\u3061\u306f\u3001\u4e16\u754c\u3002\u3088\u3046\u3053\u305d \U0001F600\U0001F600\U0001F600\U0001F600 */\n{template .t}\n"
 	failLine := 0
 	for i := 0; i < L; i++ {
 		if i == k {
@@ -37,7 +37,8 @@ func H_rendererr(depth, L int, sameNS bool) {
 				src += "  t{call " + ns + ".d" + strconv.Itoa(depth) + " /}\n"
 			}
 		} else {
-			src += "  ok{$x}\n"
+			// (non-ASCII text before the failing command: positions are byte offsets)
+			src += []string{"  ok{$x}\n", "  \u00e9\u20ac\u3053\u3093\u306b\u3061\u306f\u3001\u4e16\u754c\u3002\u3088\u3046\u3053\u305d{$x}\u00e9\n", "  \U0001F600\U0001F600\U0001F600\U0001F600\U0001F600\U0001F600\U0001F600\U0001F600{$x}\n"}[i%3]
 		}
 	}
 	src += "{/template}\n"
